@@ -156,6 +156,17 @@ def classify(diags, lmap):
                     info["fn"] = "%s:%s" % (lmap[li].get("origin", "?"), lmap[li].get("oline", "?"))
                     info["gen_line"] = sp["line_start"]
                     info["raw_chunk"] = True
+                    origin = lmap[li].get("origin", "")
+                    if origin.endswith("helper"):
+                        # helper functions generated from REAL closure text (R3 / R9): their obligations are obligations of the repository's code
+                        info["fn"] = "helper(%s)" % origin
+                        if info["label"] is None:
+                            for sp2 in spans:
+                                l2 = sp2["line_start"] - 1
+                                if 0 <= l2 < len(lmap) and lmap[l2].get("label"):
+                                    info["label"] = lmap[l2]["label"]
+                        failures.append(info)
+                        continue
             # a failure wholly inside /verif's own static text (lemma, helper) is a machinery problem, not a verdict on /repo
             hard.append({"msg": "obligation inside static chunk failed: " + msg, "line": info.get("gen_line"), "rendered": info["rendered"][:1500]})
             continue
